@@ -1,4 +1,4 @@
-import sys; sys.path.insert(0,'/tmp/fixes'); from edit import rep
+import sys; sys.path.insert(0,'/verif/tools'); from edit import rep
 s=open('segno/writers.py').read()
 for fn in ('def write_pbm','def write_pam','def write_xpm','def write_xbm'):
     i=s.index(fn)
